@@ -60,6 +60,7 @@ type FuncSpec struct {
 	Tols      []*Clause // tolerates
 	Only      []*Clause // failsonly
 	Early     []*Clause // loop N early E: what holds at every return taken from inside loop N (before its normal exit)
+	NoBreak   []*Clause // loop N nobreak: the loop is left only through its head (exhausted) or by a return
 	Steps     []*Clause // loop N step E: relation between the state at the loop head (prev(e)) and at the end of one iteration
 	Modifies  []string
 	HasMod    bool
@@ -415,6 +416,13 @@ func (ss *SpecSet) parseFile(path string) error {
 				}
 				c.Ord = cnt + 1
 				cur.Invs = append(cur.Invs, c)
+			case "nobreak":
+				c := &Clause{Kind: "nobreak", Text: "loop " + f[0] + " nobreak", Tags: tags, File: path, Line: l.no, Loop: n}
+				if c.Tags == nil {
+					c.Tags = cur.Tags
+				}
+				c.Ord = len(cur.NoBreak) + 1
+				cur.NoBreak = append(cur.NoBreak, c)
 			case "early":
 				c, err := mk("early", body)
 				if err != nil {
